@@ -6,3 +6,6 @@ export CARGO_NET_OFFLINE=true
 (cd lean && lake build Momtrop driver)
 [ -f harness/Cargo.lock ] || cp /repo/Cargo.lock harness/Cargo.lock
 (cd harness && cargo build --release --offline)
+# the second executor: /repo with its default features (no `log`, no hooks), debug assertions and overflow checks on
+[ -f harness_nolog/Cargo.lock ] || cp /repo/Cargo.lock harness_nolog/Cargo.lock
+(cd harness_nolog && cargo build --release --offline)
